@@ -27,7 +27,7 @@ const cl = "server/commitlog."
 func runC01(c *eng.Ctx) {
 	c.Rule("R01.1", "K5")
 	ruleOffsetIdentity(c)
-	c.Floor(6)
+	c.Floor(8)
 	c.Rule("R01.2", "K3")
 	ruleSingleWriter(c)
 	c.Floor(8)
@@ -96,24 +96,43 @@ func ruleOffsetIdentity(c *eng.Ctx) {
 		okPos := posVal != nil && eng.BinComm(token.ADD, eng.Param("basePos"), eng.AnyV)(posVal)
 		c.Check(okPos, "entry position = basePos + relPos", p.Pos(fn.Pos()), "entries[i].Position = basePos + bytes written so far", "the indexed position is "+eng.Describe(posVal)+", not basePos + relPos")
 	}
-	if fn := c.Fn(cl + "(*commitLog).Append"); fn != nil {
-		nm := eng.CallsIn(fn, cl+"newMessageSetFromProto")
+	for _, k := range []struct{ fn, builder string }{{cl + "(*commitLog).Append", cl + "newMessageSetFromProto"}, {cl + "(*commitLog).AppendMessageSet", cl + "entriesForMessageSet"}} {
+		fn := c.Fn(k.fn)
+		if fn == nil {
+			continue
+		}
+		nm := eng.CallsIn(fn, k.builder)
 		ap := eng.CallsIn(fn, cl+"commitLog.append")
 		if len(nm) != 1 || len(ap) != 1 {
-			c.Unresolved("newMessageSetFromProto / append in commitLog.Append")
-			return
+			c.Unresolved(k.builder + " / append in " + k.fn)
+			continue
 		}
 		seg := ap[0].Common().Args[1]
 		a := nm[0].Common().Args
-		okBase := eng.CallArgs(-1, cl+"segment.NextOffset", eng.Same(seg))(a[0])
-		okPos := eng.CallArgs(-1, cl+"segment.Position", eng.Same(seg))(a[1])
 		okSeg := eng.Call(-1, cl+"commitLog.activeSegment")(seg)
-		c.Check(okBase && okPos && okSeg, "base offset/position come from the segment that is written", c.Pos(nm[0].(ssa.Instruction)),
-			"baseOffset = segment.NextOffset(), basePosition = segment.Position() of the activeSegment() that is passed to l.append",
-			"Append assigns offsets/positions from a different segment than the one it writes to")
+		okPos, okBase := false, true
+		for _, arg := range a {
+			if eng.CallArgs(-1, cl+"segment.Position", eng.Same(seg))(arg) {
+				okPos = true
+			}
+		}
+		if k.builder == cl+"newMessageSetFromProto" {
+			okBase = eng.CallArgs(-1, cl+"segment.NextOffset", eng.Same(seg))(a[0])
+		}
+		c.Check(okBase && okPos && okSeg, "base offset/position come from the segment that is written in "+fn.Name(), c.Pos(nm[0].(ssa.Instruction)),
+			"offsets/positions are computed from NextOffset()/Position() of the very activeSegment() value that is passed to l.append",
+			fn.Name()+" computes offsets/positions from a different segment (or a different read of the active segment) than the one it writes to: after a segment roll in between, index positions point into the wrong file")
 		// the split check precedes reading the active segment
+		var segCall ssa.Instruction
+		if sc := eng.AsCall(seg); sc != nil {
+			segCall = sc
+		}
 		g, w := eng.PrecededBy(fn, nm[0].(ssa.Instruction), eng.IsCallTo(cl+"commitLog.checkAndPerformSplit"))
-		c.Check(g, "segment roll check precedes offset assignment", c.Pos(nm[0].(ssa.Instruction)), "checkAndPerformSplit runs before the active segment is read", "offsets are assigned before the roll check (path "+w.String()+")")
+		g2 := true
+		if segCall != nil {
+			g2, _ = eng.PrecededBy(fn, segCall, eng.IsCallTo(cl+"commitLog.checkAndPerformSplit"))
+		}
+		c.Check(g && g2, "segment roll check precedes offset assignment in "+fn.Name(), c.Pos(nm[0].(ssa.Instruction)), "checkAndPerformSplit runs before the active segment is read", "offsets/positions are assigned before the roll check (path "+w.String()+")")
 	}
 	if fn := c.Fn(cl + "(*commitLog).append"); fn != nil {
 		// offsets returned are the entries' offsets
